@@ -253,6 +253,12 @@ mixed2('C13', [('contracts.pda', k) for k in ('fn.get_next_free[State]', 'fn.get
         'facts about Python strings assumed: the six reserved prefixes are pairwise different and end in "#" (so prefix+digits of one never equals another); State / StackSymbol equality is equality of the value',
         'view-level contracts of pda.TransitionFunction.copy / add_transition and of the PDA constructor are assumed (their concrete dict-of-set representation is not verified)'])
 
+mixed2('C14', [('contracts.llone', k) for k in ('LLOneParser._get_first_set_production', 'LLOneParser._get_triggers', 'LLOneParser._get_triggers_follow_set')], [],
+       'Deductive for three helper functions of the LL(1) construction: _get_first_set_production is FIRST of a sequence relative to a table of FIRST sets (union of the entries of the symbols whose predecessors are all nullable in the table, epsilon kept exactly when every symbol is nullable) - the function both the fixpoint and the parsing table are built from; _get_triggers maps a symbol to exactly the heads of the productions containing it; _get_triggers_follow_set relates head -> component exactly when everything after the component is nullable in the table. For every production, table and grammar.',
+       'contract-based deductive verification (pyvc + z3) of the per-production helper functions; bounded run-time contract checking (textbook least fixpoints, predict sets, tree validation) for the fixpoint loops, the table, the verdict and the parser',
+       ['the fixpoint loops get_first_set / get_follow_set (cardinality comparisons on growing sets, SetQueue), get_llone_parsing_table, is_llone_parsable and get_llone_parse_tree are not under contract: that the proved helper functions are combined into the least fixpoints is only covered by the bounded comparison',
+        'all cfg.Epsilon() objects are one value (Terminal.__eq__ compares values); a theory lemma about the element of a suffix s[lo:] is stated as an axiom'])
+
 mixed2('C16', [('contracts.fst', k) for k in ('FST.add_transition', 'FST.add_start_state', 'FST.add_final_state', 'Renaming.add_state', 'Renaming.get_name', 'Renaming.add_states',
                                              'FST._add_transitions_to', 'FST._add_start_states_to', 'FST._add_final_states_to', 'FST._add_extremity_states_to', 'FST._copy_into',
                                              'FST._get_state_renaming', 'FST.union', 'FST.concatenate', 'FST.kleene_star')] + [('contracts.fa', 'ENFA.to_fst')], [],
